@@ -10,7 +10,7 @@ for sha in $(git log --format=%h --grep='^fix:' --reverse); do
 		line="$sha reverted;"
 		for p in $props; do
 			out=$(VERIF_REPO="$wt" VERIF_OUT="$wt-out" /verif/check "$p" quick 2>&1)
-			line="$line $p:$(echo "$out" | grep -c '^VIOLATION')viol"
+			line="$line $p:$(echo "$out" | grep -c '^VIOLATION')viol$(echo "$out" | grep -q 'BUILD FAILED' && echo '(BUILD FAILED)')$(echo "$out" | grep -q '^INCONCLUSIVE' && echo '(INCONCLUSIVE)')"
 		done
 		echo "$line ($(git log --format=%s -1 $sha | cut -c1-60))"
 	else
